@@ -87,11 +87,11 @@ Definition success_result (g : store) (nx : nat) (k : client) (ssub asub : strin
   let ssub := decided_subject (policy g) ssub in
   let t := TRec (c_id k) ssub asub sc aud (c_exp k) in
   let lf := TLife (c_exp k) true in
-  let acc n := if c_jwt k then XJwt (AT n) ssub asub lf else XOpaque (AT n) ssub in
+  let acc n := if c_jwt k then XJwt (AT n) ssub (decided_act (policy g) true asub) lf else XOpaque (AT n) ssub in
   match effective_type (policy g) req with
   | TAccess => Some ((add_at (nx + 1) t g, nx + 1), OExch TAccess (acc (nx + 1)) NoId false sc (Some t))
   | TRefresh => Some ((add_at_rt (nx + 1) (nx + 2) t g, nx + 2), OExch TRefresh (acc (nx + 2)) (RT (nx + 1)) true sc (Some t))
-  | TId => Some ((g, nx), OExch TId (XIdTok ssub (c_id k) lf) NoId false sc None)
+  | TId => Some ((g, nx), OExch TId (XIdTok ssub (c_id k) (decided_act (policy g) false asub) lf) NoId false sc None)
   | _ => None
   end.
 
@@ -128,16 +128,16 @@ Proof.
   exact (read_x_subject _ _ _ _ _ _ R).
 Qed.
 
-Lemma contained_access t n rt lv (j : bool) :
-  C15_spec.contained t TAccess (if j then XJwt (AT n) (tr_sub t) (tr_actor t) (TLife (tr_expired t) true) else XOpaque (AT n) (tr_sub t)) rt lv (Some t) = true.
+Lemma contained_access pol t n rt lv (j : bool) :
+  C15_spec.contained pol t TAccess (if j then XJwt (AT n) (tr_sub t) (decided_act pol true (tr_actor t)) (TLife (tr_expired t) true) else XOpaque (AT n) (tr_sub t)) rt lv (Some t) = true.
 Proof. unfold C15_spec.contained, C15_spec.life_ok. destruct j; now rewrite !String.eqb_refl, trec_eqb_refl, ?Bool.eqb_reflx. Qed.
 
-Lemma contained_refresh t n m (j : bool) :
-  C15_spec.contained t TRefresh (if j then XJwt (AT n) (tr_sub t) (tr_actor t) (TLife (tr_expired t) true) else XOpaque (AT n) (tr_sub t)) (RT m) true (Some t) = true.
+Lemma contained_refresh pol t n m (j : bool) :
+  C15_spec.contained pol t TRefresh (if j then XJwt (AT n) (tr_sub t) (decided_act pol true (tr_actor t)) (TLife (tr_expired t) true) else XOpaque (AT n) (tr_sub t)) (RT m) true (Some t) = true.
 Proof. unfold C15_spec.contained, C15_spec.life_ok. destruct j; now rewrite !String.eqb_refl, trec_eqb_refl, ?Bool.eqb_reflx. Qed.
 
-Lemma contained_id t rt lv sto :
-  C15_spec.contained t TId (XIdTok (tr_sub t) (tr_client t) (TLife (tr_expired t) true)) rt lv sto = true.
+Lemma contained_id pol t rt lv sto :
+  C15_spec.contained pol t TId (XIdTok (tr_sub t) (tr_client t) (decided_act pol false (tr_actor t)) (TLife (tr_expired t) true)) rt lv sto = true.
 Proof. unfold C15_spec.contained, C15_spec.life_ok. now rewrite !String.eqb_refl, Bool.eqb_reflx. Qed.
 
 (* C15_declared_is_contained, request level *)
@@ -147,8 +147,8 @@ Lemma declared_is_contained cl r g nx c subj styp actor req scopes aud s' i x rt
   let want := C15_spec.decided cl g c subj styp actor scopes aud in
   sc = decided_scopes (policy g) scopes /\
   i = effective_type (policy g) req /\
-  C15_spec.contained want i x rt lv sto = true /\
-  (forall t, sto = Some t -> t = want /\ exists n, (x = XOpaque (AT n) (tr_sub want) \/ x = XJwt (AT n) (tr_sub want) (tr_actor want) (TLife (tr_expired want) true)) /\
+  C15_spec.contained (policy g) want i x rt lv sto = true /\
+  (forall t, sto = Some t -> t = want /\ exists n, (x = XOpaque (AT n) (tr_sub want) \/ x = XJwt (AT n) (tr_sub want) (decided_act (policy g) true (tr_actor want)) (TLife (tr_expired want) true)) /\
                                    find_tok n (toks (fst s')) = Some t) /\
   (forall m, rt = RT m -> find_rt m (rtoks (fst s')) <> None).
 Proof.
@@ -367,12 +367,34 @@ Proof. repeat split. Qed.
 Lemma issued_jwt_lifetime cl r g nx c subj styp actor req scopes aud s' i x rt lv sc sto l :
   wf_clients cl = true ->
   exchange cl r (g, nx) c subj styp actor req scopes aud = (s', OExch i x rt lv sc sto) ->
-  (exists a b, x = XIdTok a b l) \/ (exists n a b, x = XJwt n a b l) ->
+  (exists a b d, x = XIdTok a b d l) \/ (exists n a b, x = XJwt n a b l) ->
   l = TLife (expired_of cl (cred_id c)) true.
 Proof.
   intros W E X. apply exchange_ok_full in E as (k & id & ssub & aid & asub & atyp & A & _ & _ & _ & SR).
   destruct (exch_auth_ok _ _ _ _ W A) as (_ & IDK & FK). unfold expired_of. rewrite FK.
   unfold success_result in SR. cbv zeta in SR.
   destruct (effective_type (policy g) req); try discriminate; injection SR as _ _ <- _ _ _ _;
-    destruct X as [(a & b & X)|(n & a & b & X)]; destruct (c_jwt k); try discriminate; now injection X as _ _ <-.
+    destruct X as [(a & b & d & X)|(n & a & b & X)]; destruct (c_jwt k); try discriminate; now injection X as _ _ _ <-.
 Qed.
+
+(* round 7: the act claim of every claim-carrying token of a success response is the storage
+   policy's decision for the actor token's subject - never the raw actor subject by default *)
+Lemma issued_act_is_policy cl r g nx c subj styp actor req scopes aud s' i x rt lv sc sto :
+  exchange cl r (g, nx) c subj styp actor req scopes aud = (s', OExch i x rt lv sc sto) ->
+  let asub := match actor with Some (ta, aty) => C15_spec.subject_of g aty ta | None => "" end in
+  (forall n a b l, x = XJwt n a b l -> b = decided_act (policy g) true asub) /\
+  (forall a z b l, x = XIdTok a z b l -> b = decided_act (policy g) false asub).
+Proof.
+  intros E asub. apply exchange_ok_full in E as (k & id & ssub & aid & asub' & atyp & _ & _ & RA & _ & SR).
+  apply actor_read_subject in RA. fold asub in RA. subst asub'.
+  unfold success_result in SR. cbv zeta in SR.
+  destruct (effective_type (policy g) req); try discriminate; injection SR as _ _ <- _ _ _ _;
+    split; intros; destruct (c_jwt k); try discriminate; match goal with H : _ = _ |- _ => now injection H as _ _ <- _ end.
+Qed.
+
+(* the policies differ: for one actor the four decisions are four different act claims *)
+Lemma act_policies_differ : forall p, p_act p = ActNone -> decided_act p true "bob" = "" /\
+  (forall q, p_act q = ActMapped -> decided_act q true "bob" = "mapped:bob") /\
+  (forall q, p_act q = ActChain -> decided_act q false "bob" = "bob>gateway") /\
+  (forall q, p_act q = ActDefault -> decided_act q true "bob" = "bob" /\ decided_act q false "bob" = "").
+Proof. intros p H. unfold decided_act. cbn. rewrite H. split; [reflexivity|]. split; [|split]; intros q Hq; rewrite Hq; auto. Qed.
